@@ -530,6 +530,46 @@ func harnesses() []harness {
 				return strings.Join(append(append(rw.lines, rr.lines...), re.lines...), "; ")
 			}
 		}},
+		{"H10 writer(Remove,Set,SaveVersion) || exporter(Export v3, read all, Close) || export goroutine", func(cfg c06Cfg) ([]func(), func() string) {
+			t := prelude(cfg)
+			t3, err := t.GetImmutable(3)
+			if err != nil {
+				panic(err)
+			}
+			var rw, re rec
+			exporter := func() {
+				e, err := t3.Export()
+				if err != nil {
+					re.add("exporter: Export(v3): %v", err)
+					return
+				}
+				got := map[string]string{}
+				nodes := 0
+				for {
+					n, err := e.Next()
+					if err != nil {
+						if !errors.Is(err, iavl.ErrorExportDone) {
+							re.add("exporter: Next: %v", err)
+						}
+						break
+					}
+					nodes++
+					if n.Height == 0 {
+						got[string(n.Key)] = string(n.Value)
+					}
+				}
+				e.Close()
+				// version 3 = {a:1,b:2,c:3}: 3 leaves + 2 inner nodes
+				if nodes != 5 || !sameMap(got, c06Contents[3]) {
+					re.add("export of version 3 delivered %d nodes with leaves %v, version content %v", nodes, got, c06Contents[3])
+				}
+			}
+			return []func(){writerA(t, &rw), exporter}, func() string {
+				var r2 rec
+				epilogue(&r2, t, map[int64]map[string]string{3: c06Contents[3], 4: v4A})
+				return strings.Join(append(append(rw.lines, re.lines...), r2.lines...), "; ")
+			}
+		}},
 		{"H7 writer(Remove,Set,SaveVersion) || reader(GetImmutable(4) as soon as it exists: Get, Has, Iterator)", func(cfg c06Cfg) ([]func(), func() string) {
 			t := prelude(cfg)
 			var rw, rr rec
@@ -819,6 +859,10 @@ func init() {
 			if only := os.Getenv("VERIF_C06_ONLY"); only != "" && !strings.HasPrefix(hs[hi].name, only) {
 				continue // development aid
 			}
+			if strings.HasPrefix(hs[hi].name, "H10") && os.Getenv("VERIF_H4") != "1" {
+				skipped = append(skipped, hs[hi].name+": the export.go rewrite did not apply to this tree")
+				continue
+			}
 			if strings.HasPrefix(hs[hi].name, "H4") && os.Getenv("VERIF_H4") != "1" {
 				skipped = append(skipped, hs[hi].name+": the export.go rewrite did not apply to this tree")
 				continue
@@ -832,7 +876,7 @@ func init() {
 				continue
 			}
 			for ci := range cfgs {
-				three := strings.HasPrefix(hs[hi].name, "H3") || strings.HasPrefix(hs[hi].name, "H4") || strings.HasPrefix(hs[hi].name, "H5") || strings.HasPrefix(hs[hi].name, "H8")
+				three := strings.HasPrefix(hs[hi].name, "H3") || strings.HasPrefix(hs[hi].name, "H4") || strings.HasPrefix(hs[hi].name, "H5") || strings.HasPrefix(hs[hi].name, "H8") || strings.HasPrefix(hs[hi].name, "H10")
 				if c.Tier == "quick" && three && ci != 1 && ci != 2 {
 					continue // quick: the 3-thread harnesses run under two configurations (cache 100 + index, cache 0 without)
 				}
@@ -862,7 +906,7 @@ func init() {
 				bin = raceBin
 				b = bound - 1
 			}
-			three := strings.HasPrefix(hs[j.hi].name, "H3") || strings.HasPrefix(hs[j.hi].name, "H4") || strings.HasPrefix(hs[j.hi].name, "H5") || strings.HasPrefix(hs[j.hi].name, "H8")
+			three := strings.HasPrefix(hs[j.hi].name, "H3") || strings.HasPrefix(hs[j.hi].name, "H4") || strings.HasPrefix(hs[j.hi].name, "H5") || strings.HasPrefix(hs[j.hi].name, "H8") || strings.HasPrefix(hs[j.hi].name, "H10")
 			if three {
 				b-- // three threads: one preemption less
 			}
@@ -1015,7 +1059,7 @@ func init() {
 			"explanation_c06": "every schedule (choice sequence at lock acquisitions and storage calls) with at most the stated number of preemptions is executed on the real code; the -race build runs the same enumeration with the race detector active inside each schedule (the scheduler's hand-off uses raw futex calls from norace code and adds no happens-before edge)"}
 		res.Assumptions = []string{
 			"scheduling points: every Lock/RLock of the sync primitives used by iavl (rebuilt against the shim) and every storage call; code between two points runs atomically in the explorer (races inside such blocks are the race detector's job)",
-			"harnesses H1-H9: 2-3 threads, <= 3 operations each, one writer; H4 (export pinning vs pruning: the exporter goroutine and its channel run under the scheduler) and H5 (background pruning loop, SetCommitting/UnsetCommitting) use the rewritten export.go / nodedb.go of the sched build and are skipped (recorded in skipped_harnesses) if the rewrite does not apply to the current tree",
+			"harnesses H1-H10: 2-3 threads, <= 3 operations each, one writer; H4 (export pinning vs pruning: the exporter goroutine and its channel run under the scheduler) and H5 (background pruning loop, SetCommitting/UnsetCommitting) use the rewritten export.go / nodedb.go of the sched build and are skipped (recorded in skipped_harnesses) if the rewrite does not apply to the current tree",
 			"the storage is check/vstore (MemDB-like locking, snapshot iterators)",
 		}
 		return res
